@@ -25,8 +25,8 @@ typedef struct {
 	 * having written nothing blindly) would repeat itself for ever: it is blocked until one of them changes */
 	struct { void *site; uint64_t ha, hb; int obs_start; } spin[24];
 	int nspin;
-	struct { const uint8_t *addr; uint8_t n; uint64_t val; } obs[64], watch[64];
-	int nobs, nwatch, obs_overflow, blind_write;
+	struct { const uint8_t *addr; uint8_t n, wrote; uint64_t val; } obs[64], watch[64];
+	int nobs, nwatch, obs_overflow, blind_write, obs_wrote;
 } vs_ctx;
 
 typedef struct { uint8_t *p; size_t n; int kind; const char *name;
@@ -137,6 +137,7 @@ static const char *vs_addrname(const void *a, char *buf, size_t n)
 static inline uint64_t vs_peek(const uint8_t *a, int n) { uint64_t v = 0; memcpy(&v, a, (size_t)(n > 8 ? 8 : n)); return v; }
 static void vs_observe(vs_ctx *c, const void *addr, size_t n, uint64_t val)
 {
+	c->obs_wrote = 0;
 	if (c->nobs >= 64) {
 		/* forget the oldest half of the log (and the call-site visits that refer to it) */
 		int drop = 32, k = 0;
@@ -144,7 +145,7 @@ static void vs_observe(vs_ctx *c, const void *addr, size_t n, uint64_t val)
 		for (int i = 0; i < c->nspin; i++) if (c->spin[i].obs_start >= drop) { c->spin[k] = c->spin[i]; c->spin[k].obs_start -= drop; k++; }
 		c->nspin = k;
 	}
-	c->obs[c->nobs].addr = addr; c->obs[c->nobs].n = (uint8_t)(n > 8 ? 8 : n); c->obs[c->nobs].val = val; c->nobs++;
+	c->obs[c->nobs].addr = addr; c->obs[c->nobs].n = (uint8_t)(n > 8 ? 8 : n); c->obs[c->nobs].val = val; c->obs[c->nobs].wrote = 0; c->nobs++;
 }
 static void vs_progress(vs_ctx *c) { c->nspin = 0; c->nobs = 0; c->obs_overflow = 0; c->blind_write = 0; }
 /* is the spinning thread t still looking at the values that made it spin? */
@@ -369,6 +370,19 @@ static void vs_sched_point(void *site)
 				else c->watch[nw++] = c->obs[k];
 			}
 			if (same && nw) {
+				/* an iteration that changed memory on the way (a transient decrement that is taken back, say) is
+				 * not a pure wait: others may depend on its intermediate states, so it must keep running. Its
+				 * history is rewound all the same, which makes the global state repeat, and the visited set then
+				 * ends the execution (a cycle in the state space). It only counts as blocked if nobody else can run. */
+				int impure = 0;
+				for (int k = s3; k < s4; k++) impure |= c->obs[k].wrote;
+				if (impure) {
+					int others = 0;
+					for (int t = 0; t < V.scn->nthreads; t++) if (t != V.cur && !V.finished[t] && !vs_still_blocked(t)) others = 1;
+					if (V.cur == 0 && V.next_handler < V.scn->nhandlers && V.depth0 < V.scn->max_nesting) others = 1;
+					c->ha = c->spin[i1].ha; c->hb = c->spin[i1].hb; c->nspin = i1; c->nobs = s1;
+					if (others) goto spin_done;
+				}
 				c->ha = c->spin[i1].ha; c->hb = c->spin[i1].hb; c->nspin = i1; c->nobs = s1; c->nwatch = nw;
 				V.st->spin_blocks++;
 				if (V.cur == 0 && V.next_handler < V.scn->nhandlers && V.depth0 < V.scn->max_nesting) {
@@ -384,6 +398,7 @@ static void vs_sched_point(void *site)
 				}
 			}
 		}
+		spin_done:
 		if (c->nspin >= 24) { memmove(&c->spin[0], &c->spin[8], sizeof(c->spin[0]) * 16); c->nspin = 16; }
 		{ c->spin[c->nspin].site = site; c->spin[c->nspin].ha = c->ha; c->spin[c->nspin].hb = c->hb; c->spin[c->nspin].obs_start = c->nobs; c->nspin++; }
 	}
@@ -611,7 +626,7 @@ static void vs_note_op(const char *op, void *addr, int mo, uint64_t result, int 
 	vs_reg *r = vs_find(addr);
 	V.st->atomic_ops++;
 	if (op[0] == 's' && op[1] == 't') vs_observe(c, NULL, 0, 0);	/* a store observes nothing (marker) */
-	else if (vs_find(addr)) vs_observe(c, addr, width, result);
+	else if (vs_find(addr)) { vs_observe(c, addr, width, result); if (changed && c->nobs) c->obs[c->nobs - 1].wrote = 1; }
 	vs_fold(c, 0xA700 + (uint64_t)(op[0] * 131 + op[1]) + (r ? (uint64_t)((uint8_t *)addr - r->p) << 16 : 0)); vs_fold(c, result);
 	if (changed) V.write_epoch++;
 	if (!V.in_setup) vs_tabulate(op, addr, mo);
